@@ -150,6 +150,18 @@ def run(rep, pdb, tier):
         def eqc(name, t_):
             return t_[0] == "op" and t_[1] == "==" and {t_[2], t_[3]} == {F(P(0), name), F(P(1), name)}
         ok = t[0] == "op" and t[1] == "&&" and ((eqc("real", t[2]) and eqc("imag", t[3])) or (eqc("imag", t[2]) and eqc("real", t[3])))
+        if not ok:
+            # any spelling whose truth is exactly "both component equalities hold" (e.g. a comparison of the two pairs)
+            from .guards import cond_atoms
+            bd = strip(fn["body"])
+            while bd.get("k") == "Block" and not bd.get("stmts") and bd.get("expr") is not None:
+                bd = strip(bd["expr"])
+            ats = cond_atoms(ctx, bd, True)
+            got = set()
+            for a_ in ats:
+                if a_[0] == "cmp" and a_[1] == "==":
+                    got.add(frozenset((a_[2], a_[3])))
+            ok = len(ats) == 2 and got == {frozenset((F(P(0), "real"), F(P(1), "real"))), frozenset((F(P(0), "imag"), F(P(1), "imag")))}
         rep.add(key, rule, ok, fn["body"], "", where=loc(fn["body"]))
     path = "<%s as std::cmp::PartialOrd>::partial_cmp" % C
     fn = pdb.fn(path)
